@@ -172,8 +172,12 @@ func cmapScenarios() []hx.Scenario {
 			Mk:   func() *mc.Exec { return mkCmap(th) },
 		}
 		if len(th) >= 4 {
-			// 4 threads: bound 1 in the quick tier (bound 2 costs ~2*10^5 schedules each)
+			// 4 threads: bound 1 in the quick tier (bound 2 costs 2*10^5..10^6
+			// schedules each); thorough: bound 2 with one key, bound 1 with two
 			sc.QuickBound, sc.QuickMin = hx.Ptr(1), hx.Ptr(1)
+			if strings.Contains(name, "b") {
+				sc.Opts.Bound, sc.Opts.MinBound = 1, 1
+			}
 		}
 		out = append(out, sc)
 	}
